@@ -77,6 +77,9 @@ impl Prop for C11 {
     fn id(&self) -> &'static str {
         "C11"
     }
+    fn fuzz_target(&self) -> Option<&'static str> {
+        Some("tape")
+    }
     fn rule(&self) -> String {
         "generated transition systems (arrays, shared sub-expressions between init/next/bad/constraint/output, labels aliasing states/inputs, debug names on intermediate nodes, some inputs named _input_N/_state_N). simplify_expressions: same input and state symbols in the same order; every init/next/output/bad/constraint is reference-evaluator-equal before/after (all assignments when <= 14 symbol bits, else 48 samples); 4-step lock-step run of both systems in the reference simulator with random inputs; every debug name still present is attached to a node equivalent to the one it named. replace_anonymous_inputs_with_zero: the anonymous inputs are gone from `inputs`, no expression mentions them, every function equals the original with those inputs fixed to zero. Non-trivial: >= 1 root changed by the transformation and >= 1 non-leaf sub-expression shared between two roots; distinct by hash of the system text.".into()
     }
